@@ -100,7 +100,7 @@ def check_reset(reg, src, prop):
             fresh = isinstance(integ, Ref) and integ != old_integ and s.obj(integ).fields.get("fresh") is True
             kw = s.obj(integ).fields.get("kwargs", {}) if fresh else {}
             reg.ground(pre + "integrator-is-new-with-current-settings#%d" % k, "post", "reset", fresh and kw.get("atol") is fields["_OdeSystem__atol"] and kw.get("rtol") is fields["_OdeSystem__rtol"]
-                       and s.obj(integ).fields.get("final_rhs") is None, backend="symbolic-exec",
+                       and s.obj(integ).fields.get("final_rhs") is None and "dState" not in s.obj(integ).fields and "dTime" not in s.obj(integ).fields, backend="symbolic-exec",
                        detail="fresh integrator built by self.__method(self.dim, atol=..., rtol=...): no cached slopes, no controller memory, no dState/dTime carried over")
             changed = [k2 for k2, v2 in settings_before.items() if o.get(k2) is not v2 and not (z3.is_expr(v2) and z3.is_expr(o.get(k2)) and v2.eq(o.get(k2)))]
             reg.ground(pre + "settings-untouched#%d" % k, "frame", "reset", not changed, backend="symbolic-exec", detail="settings changed by reset: %r" % (changed,))
